@@ -5,6 +5,7 @@
 package main
 
 import (
+	"path/filepath"
 	"encoding/json"
 	"flag"
 	"fmt"
@@ -52,8 +53,17 @@ func main() {
 		os.Exit(2)
 	}
 	defer d.Close()
+	// the second model driver runs the code TRANSLATED from the Go source (lean/GoUefi/Gen.lean); it is optional:
+	// when the translation of the current tree does not build, the proof obligations already say so
+	var gd *Driver
+	if gp := filepath.Join(filepath.Dir(*drv), "gendriver"); fileExists(gp) {
+		if g, err := StartDriver(gp); err == nil {
+			gd = g
+			defer g.Close()
+		}
+	}
 	c := &Ctx{
-		Prop: *prop, Tier: *tier, Seed: seed, Rng: rand.New(rand.NewSource(seed)), Drv: d, DrvPath: *drv,
+		Prop: *prop, Tier: *tier, Seed: seed, Rng: rand.New(rand.NewSource(seed)), Drv: d, GenDrv: gd, DrvPath: *drv,
 		VerifDir: *verif, RepoDir: *repo, Thorough: *tier == "thorough", start: time.Now(),
 		distinct: map[[16]byte]bool{}, classes: map[string]int{}, knownHits: map[string]int{},
 		notes: map[string]interface{}{},
@@ -125,4 +135,9 @@ func main() {
 		run(c)
 	}
 	os.Exit(c.Finish(ob))
+}
+
+func fileExists(p string) bool {
+	st, err := os.Stat(p)
+	return err == nil && !st.IsDir()
 }
